@@ -150,8 +150,10 @@ MANIFEST = {
     "checks": {
         "C11": dict(engine="agg", ref="6.4 and 8", category="exploration",
                     text="Recursion.tla states the key-binding discipline (child verifier key baked as constants; accepted => proof by the baked child; constructors "
-                         "refuse wrong public-input counts) and TLC checks it on all cells, rejecting the virtual-key mutant. The cells are replayed on real outer "
-                         "circuits built by PrivateBatchCircuit::new / PublicBatchCircuit::new: honest proofs of eight foreign circuits (same-shape ones included) "
+                         "refuse wrong public-input counts) with the verifier LOOP as one action per slot (batches of 1..3 slots, the examined proof in any slot, valid "
+                         "proofs in the others) and TLC checks it on all cells, rejecting the virtual-key and the skip-last-slot mutants. The cells are replayed on real "
+                         "outer circuits built by PrivateBatchCircuit::new / PublicBatchCircuit::new (1-, 2- and 3-slot): honest proofs of eight foreign circuits - the "
+                         "same-shape ones carrying exactly the canonical proof's public inputs, so that nothing but the binding can reject them - "
                          "must be rejected at witness fill, proving or verification, the matching child accepted. Cryptographic unsatisfiability for ALL foreign "
                          "proofs is Plonky2's soundness, not decided here - hence level 'exploration'.",
                     note="Trusted: Plonky2 recursion; eight concrete foreign circuits stand for 'any different circuit'."),
